@@ -10,7 +10,7 @@ os.makedirs(D,exist_ok=True)
 shutil.copy(O+'/patch.diff',D+'/patch.diff')
 shutil.copy(O+'/zz_seed_demo_test.go',D+'/zz_seed_demo_test.go')
 m=json.load(open(O+'/meta.json'))
-meta={'property':ID,'summary':m.get('summary'),'needs':m.get('needs'),'files':m.get('files'),
+meta={'property':ID[:3],'summary':m.get('summary'),'needs':m.get('needs'),'files':m.get('files'),
  'demo_pkg':open(O+'/demo_pkg.txt').read().strip(),
  'origin':'written by an independent sub-agent given only the property text and a scratch worktree',
  'confirmed_by_me':{'how':'/tmp/seedout/seedverify.sh in the scratch worktree: demo test with the change (must fail), full suite `go test -vet=off -count=1 ./...` with the change (must pass), demo test with the change stashed (must pass)',
